@@ -9,7 +9,8 @@ import (
 // Analysis of a recorded log: per prefix the head pointer and whether the named block's header is stored, the import
 // segments (one per `put td`), statistics, and the classification of a bad prefix into a WINDOW.
 //
-// Windows of the tree as written (each is one contiguous stretch of writes inside WriteBlockWithState → reorg → insert):
+// Windows the tree had BEFORE fix commits 141a732 / deec78d; kept so that a regression is reported with a signature that
+// names the window (each is one contiguous stretch of writes inside WriteBlockWithState → reorg → insert):
 //
 //	head-before-batch : LastBlock names the INCOMING block of a reorganising import and that block's header is not stored
 //	                    (reorg → insert re-pointed the head markers before WriteBlockWithState flushed the block's batch)
@@ -145,7 +146,7 @@ func (a *Analysis) Variant() string {
 	for _, v := range []struct {
 		name   string
 		bf, at int
-	}{{"asWritten", 0, 0}, {"batchFirst", 1, 0}, {"atomicInsert", 0, 1}, {"fixed", 1, 1}} {
+	}{{"preFix", 0, 0}, {"batchFirstOnly", 1, 0}, {"atomicInsertOnly", 0, 1}, {"head", 1, 1}} {
 		if (a.bf < 0 || a.bf == v.bf) && (a.at < 0 || a.at == v.at) {
 			out = append(out, v.name)
 		}
